@@ -383,6 +383,14 @@ func ruleResetPrunes(c *Ctx, only ...string) {
 					if res.IsTrue() == matched {
 						bad = append(bad, fmt.Sprintf("the predicate returns delete=%v for a name that matched=%v", res.IsTrue(), matched))
 					}
+				} else if k, v := pr.Facts.Decide(res); k {
+					if v == matched {
+						bad = append(bad, fmt.Sprintf("the predicate returns delete=%v for a name that matched=%v", v, matched))
+					}
+				} else if nameSetMiss(res) {
+					// "not in the set of configured names": the name match itself, by lookup
+				} else {
+					bad = append(bad, fmt.Sprintf("whether an entry is removed depends on more than its name being among the new options (%s): an entry that is still configured is torn down and rebuilt by an update, which a fresh start never does", prettyTerm(res)))
 				}
 			})
 		}
@@ -926,4 +934,19 @@ func containsStr(xs []string, x string) bool {
 		}
 	}
 	return false
+}
+
+// nameSetMiss: t is the negated presence flag of a map lookup keyed by the
+// predicate's own parameter, and nothing else.
+func nameSetMiss(t *Term) bool {
+	if !((t.Op == "un" && t.Name == "!") || t.Op == "not") || len(t.Args) != 1 {
+		return false
+	}
+	x := t.Args[0]
+	if x.Op != "ext" || x.Name != "1" || len(x.Args) != 1 || x.Args[0].Op != "lookup" || len(x.Args[0].Args) != 2 {
+		return false
+	}
+	k := stripConvTerm(x.Args[0].Args[1])
+	m := x.Args[0].Args[0]
+	return k.Op == "sym" && strings.HasPrefix(k.Name, "p:") && (m.Op == "sym" || m.Op == "init" || m.Op == "global" || m.Op == "make")
 }
